@@ -118,6 +118,7 @@ FORBIDDEN = re.compile(r"\b(sorry|admit|native_decide|bv_decide|implemented_by|u
 
 
 def strip_comments(text):
+    text = re.sub(r'"(?:[^"\\]|\\.)*"', '""', text)      # string literals (the inventory quotes Rust keywords)
     text = re.sub(r"/-.*?-/", "", text, flags=re.S)
     return re.sub(r"--.*", "", text)
 
